@@ -12,6 +12,7 @@ mod stack;
 mod c15;
 mod c04;
 mod c03;
+mod c20;
 
 fn main() {
     let mode = std::env::args().nth(1).unwrap_or_default();
@@ -60,6 +61,7 @@ fn dispatch(mode: &str, line: &str) -> String {
         "c04" => c04::run(line),
         "c03" => c03::run_print(line),
         "c14" => c03::run_spans(line),
+        "c20" => c20::run(line),
         _ => format!("bad-mode {mode}"),
     }
 }
